@@ -1824,8 +1824,39 @@ def _complete_workflow_post(ctx):
     return goals
 
 
+def _cw_events(ctx):
+    """C12 (crash-free replay gives the stored status): the handler run that commits the final workflow status records exactly
+    one workflow completion event (when a recorder is configured), and the KIND of that event is the one replay maps back to
+    the stored status: `canceled` only for CANCELED (replay sets the fixed status CANCELED), `failed` only for a failure
+    status, `completed` otherwise (those two carry the status themselves -- recorder units).  The event is recorded before the
+    transaction, not inside it; C13 speaks of stage and task completion events only, so that is not an obligation here."""
+    I = ctx.I
+    if ctx.exc is not None:
+        return []
+    h = ctx.extra["handler"]
+    rec_absent = I.st.objs[h.oid].fields["_event_recorder"].isnone
+    kinds = ("record_workflow_completed", "record_workflow_failed", "record_workflow_canceled")
+    evs = [e for e in ctx.st.effects if e.kind == "event" and e.data["kind"] in kinds]
+    goals = []
+    ups = [e for t in P.committed_txns(ctx) for e in t.effects if e.kind == "update_workflow"]
+    if not ups:
+        return [("no-completion-event-without-the-status-commit", z3.BoolVal(not evs))]
+    stt = ups[0].data["status"].t
+    goals.append(("one-completion-event", z3.Implies(z3.And(is_complete(I, stt), z3.Not(rec_absent)), z3.BoolVal(len(evs) == 1))))
+    for e in evs:
+        k = e.data["kind"]
+        if k == "record_workflow_canceled":
+            goals.append(("canceled-event-only-for-CANCELED", stt == status(I, "CANCELED")))
+        elif k == "record_workflow_failed":
+            goals.append(("failed-event-only-for-a-failure", z3.And(stt != status(I, "CANCELED"), stt != status(I, "SUCCEEDED"))))
+        else:
+            goals.append(("completed-event-not-for-CANCELED", stt != status(I, "CANCELED")))
+    return goals
+
+
 def complete_workflow():
     obls = [
+        Obl("C12/T4/CompleteWorkflow", _cw_events, when="any"),
         Obl("C05/complete-workflow", _complete_workflow_post, when="any"),
         Obl("C17/final/CompleteWorkflow", _complete_workflow_post, when="any"),
         Obl("C02/guard/CompleteWorkflow", _exec_guard(COMPLETE, negate=True), when="any"),
@@ -1877,6 +1908,29 @@ def _final_status_post(ctx):
     return goals
 
 
+def _final_status_cancel(ctx):
+    """C17 (the workflow ends CANCELED): once a top-level stage is CANCELED and none is TERMINAL, the decided outcome is CANCELED --
+    never SUCCEEDED, whatever else the other branches did (a STOPPED branch included)."""
+    I = ctx.I
+    if ctx.exc is not None:
+        return [("no-exception", FALSE)]
+    ex = ctx.args["execution"]
+    stages = I.getattr(ex, "stages")
+    j, k = fresh_int("sj"), z3.Int("sk")
+    n = I.ops.list_len(stages)
+    sarr = I._elem_array(stages.lid, "status", I.typer.sort_of(("enum", WS)))
+    toparr = I._elem_array(stages.lid, "parent_stage_id?", z3.BoolSort())
+    res = ctx.result
+    if res is SNone:
+        return []
+    isnone = I.ops.is_none(res)
+    rt = I.ops.strip_opt(res).t
+    canceled_j = z3.And(j >= 0, j < n, z3.Select(toparr, j), z3.Select(sarr, j) == status(I, "CANCELED"))
+    no_terminal = z3.ForAll([k], z3.Implies(z3.And(k >= 0, k < n, z3.Select(toparr, k)), z3.Select(sarr, k) != status(I, "TERMINAL")))
+    return [("canceled-stage-never-ends-succeeded", z3.Implies(z3.And(canceled_j, z3.Not(isnone)), rt != status(I, "SUCCEEDED"))),
+            ("canceled-stage-and-no-terminal-one-ends-canceled", z3.Implies(z3.And(canceled_j, no_terminal, z3.Not(isnone)), rt == status(I, "CANCELED")))]
+
+
 def final_status_unit():
     from pyvc.verify import Unit
     from .common import STATUS_NAMES
@@ -1889,7 +1943,7 @@ def final_status_unit():
                 params=[("execution", ("obj", "Workflow")), ("message", ("obj", "CompleteWorkflow"))], self_type=selfv,
                 names=STATUS_NAMES, registry=workflow_registry(), replayable=False,
                 obligations=[Obl("C05/final-status", _final_status_post, when="any", scenario="d5_stopped_stage_workflow_succeeded.py"),
-                             ])
+                             Obl("C17/final-status/canceled", _final_status_cancel, when="any")])
 
 
 ALL.append(final_status_unit)
@@ -2834,7 +2888,7 @@ _old_units_for = units_for
 
 def units_for(prop: str):  # noqa: F811
     out = _old_units_for(prop)
-    for u in reset_units() + send_signal_units() + orchestrator_cancel_units():
+    for u in reset_units() + send_signal_units() + orchestrator_cancel_units() + retry_units():
         u.obligations = [o for o in u.obligations if o.name.startswith(prop + "/")]
         if u.obligations:
             u.prop = prop
@@ -3117,3 +3171,67 @@ def orchestrator_cancel_units():
                  params=[("execution", ("obj", "Workflow")), ("user", ("str",)), ("reason", ("str",))], names=STATUS_NAMES,
                  registry=handler_registry(), replayable=False,
                  obligations=[Obl("C17/request/Orchestrator.cancel", _orch_cancel_post, when="any")])]
+
+
+# ---- StabilizeHandler.retry_on_concurrency_error, the real function (the handler units use its contract): a write that lost
+# every attempt is never reported as done (C07: a conflicting save fails, is retried, and if it keeps failing the error reaches
+# the processor, which re-delivers the message)
+def _retry_run(ctx):
+    from pyvc.values import SModel, PyRaise as _PR
+
+    I = ctx.I
+    h = make_handler_obj(I)
+    calls = []
+    ctx.extra["calls"] = calls
+
+    def func(I2, a, k):
+        n = len(calls)
+        if I2.st.choose(f"attempt{n}_loses_the_race"):
+            calls.append("conflict")
+            T.raise_exc(I2, "ConcurrencyError", "stabilize.errors")
+        if I2.st.choose(f"attempt{n}_fails_otherwise"):
+            calls.append("error")
+            I2.raise_builtin("ValueError", "user error")
+        calls.append("ok")
+        return SNone
+
+    ctx.args["context"] = I.ops.opaque_str("context")
+    return I.call(I.getattr(h, "retry_on_concurrency_error"), [SModel(func, None, "func"), ctx.args["context"]], {})
+
+
+def make_handler_obj(I):
+    from .hcommon import make_handler
+
+    return make_handler(I, H + "complete_task:CompleteTaskHandler")
+
+
+def _retry_post(ctx):
+    """a normal return means the LAST invocation of func returned normally; func is invoked at least once; when the last
+    invocation lost the race a ConcurrencyError escapes; any other failure of func escapes unchanged (or as ConcurrencyError
+    once the retry policy gave up)."""
+    I = ctx.I
+    calls = ctx.extra["calls"]
+    goals = [("func-invoked", z3.BoolVal(len(calls) >= 1))]
+    if ctx.exc is None:
+        goals.append(("normal-return-only-after-a-successful-attempt", z3.BoolVal(bool(calls) and calls[-1] == "ok")))
+    else:
+        names = I.exc_class_names(ctx.exc)
+        goals.append(("a-lost-race-escapes-as-ConcurrencyError", z3.BoolVal(calls[-1:] != ["conflict"] or "ConcurrencyError" in names)))
+        goals.append(("escaping-error-is-the-attempts-or-ConcurrencyError", z3.BoolVal("ConcurrencyError" in names or (calls[-1:] == ["error"] and "ValueError" in names))))
+        goals.append(("no-error-after-success", z3.BoolVal(calls[-1:] != ["ok"])))
+    return goals
+
+
+def retry_units():
+    from pyvc.verify import Unit
+    from .assumed_runtask import install
+    from .common import STATUS_NAMES
+    from .hcommon import handler_registry
+
+    reg = handler_registry()
+    install(reg)
+    reg.contracts.pop("stabilize.handlers.base:StabilizeHandler.retry_on_concurrency_error", None)  # the real function runs here
+    return [Unit(prop="*", name="L2/StabilizeHandler.retry_on_concurrency_error", func="stabilize.handlers.base:StabilizeHandler.retry_on_concurrency_error",
+                 params=[], names=STATUS_NAMES, registry=reg, replayable=False, run=_retry_run,
+                 obligations=[Obl("C07/retry/never-reports-a-lost-write-as-done", _retry_post, when="any"),
+                              Obl("C04/retry/never-reports-a-lost-write-as-done", _retry_post, when="any")])]
